@@ -252,6 +252,18 @@ def check_C15(ctx, rep):
                             read.add(x[3])
         for h in heaps:
             rep.ob('C15.R2', fn, 'consults:' + h, h in read, '%s reads %s' % (name, sorted(read)))
+        if name == 'len':
+            # a sum: the heap sizes are only added (checked or plain), never subtracted or scaled
+            ops = set()
+            for b in fa2.cfg.reach:
+                for k, s in enumerate(fa2.blocks[b]['s']):
+                    if 'p' in s and s['rv']['k'] == 'bin':
+                        ops.add(s['rv']['op'])
+            rep.ob('C15.R2', fn, 'len-is-the-sum-of-the-heap-sizes', bool(ops) and ops <= {'Add', 'AddWithOverflow'}, 'arithmetic in len: %s' % sorted(ops))
+            for sq_name in ('len',):
+                sfn = prog.fn(SIM, 'SimQueue', sq_name)
+                ops2 = {s['rv']['op'] for b in an.get(sfn).cfg.reach for s in an.get(sfn).blocks[b]['s'] if 'p' in s and s['rv']['k'] == 'bin'}
+                rep.ob('C15.R2', sfn, 'len-is-the-sum-of-both-sides', bool(ops2) and ops2 <= {'Add', 'AddWithOverflow'}, 'arithmetic in SimQueue::len: %s' % sorted(ops2))
     pushf = prog.fn(SIM, 'EventQueue', 'push')
     pa = an.get(pushf)
     hp = [b for (b, f, a, t) in calls(pa) if callee_str(f).endswith('BinaryHeap::<T, A>::push') or callee_str(f).endswith('BinaryHeap::<T>::push')]
@@ -275,6 +287,7 @@ def check_C15(ctx, rep):
     rep.rule('C15.R6', 'side plumbing: sim_network_stack receives (state of the event\'s side, state of the other side) as selected by next.client; '
              'peek_queue and pick_next receive (client, server) in that order')
     check_side_plumbing(ctx, rep, 'C15.R6', only=('sim_network_stack', 'peek_queue', 'pick_next'))
+    check_simqueue_peek_merge(ctx, rep, 'C15.R4')
     ps = prog.fn(SIM, 'SimQueue', 'push_sim')
     psa = an.get(ps)
     pfps = an.paths(ps, history=True)
@@ -1518,6 +1531,63 @@ def check_pick_next_none(ctx, rep, rid):
                'paths to the None result: %d' % len(lp) + ('' if bad is None else '; %s not established == Duration::MAX on a path: %s' % (bad[0], show_facts(bad[1]))))
 
 
+def check_simqueue_peek_merge(ctx, rep, rid):
+    """SimQueue::peek merges the two sides: each result triple (event, queue tag, duration) comes from ONE side's EventQueue::peek, a
+    side is returned when the other has nothing, and with both present the client's only when its (duration, event rank) compares
+    Less or Equal to the server's, the server's only otherwise"""
+    prog, an = ctx.prog, ctx.an
+    pk = prog.fn(SIM, 'SimQueue', 'peek')
+    ka = an.get(pk)
+    rep.analysed(pk)
+    pf = an.paths(pk, history=True)
+
+    def side_of(e):
+        ss = set()
+        for y in walk(e):
+            if is_call(y, 'EventQueue::peek'):
+                for z in walk(y[2][0]):
+                    if isinstance(z, tuple) and z and z[0] == 'fld' and z[2].endswith('SimQueue') and z[3] in ('client', 'server'):
+                        ss.add(z[3])
+        return ss
+    n = 0
+    for (b, k, v) in ret_defs(ka):
+        if not (v[0] == 'tuple' and len(v[2]) == 3):
+            rep.ob(rid, pk, 'merge:result-is-a-triple', False, 'returns %s' % shape(v))
+            continue
+        sides = [side_of(x) for x in v[2]]
+        if not any(sides):
+            continue   # the empty result
+        n += 1
+        one = len(set().union(*sides)) == 1 and all(len(x) == 1 for x in sides)
+        rep.ob(rid, pk, 'merge:triple-from-one-side', one, 'components come from %s' % [sorted(x) for x in sides])
+        if not one:
+            continue
+        mine = next(iter(sides[0]))
+        other = 'server' if mine == 'client' else 'client'
+        sts = pf.at(b, k) if k is not None else pf.at_entry(b)
+
+        def ok_case(S):
+            for f in S:
+                if f[0] == 'variant' and f[2] == 'None' and side_of(f[1]) == {other}:
+                    return True
+            # both present: the comparison client vs server decides
+            less_eq = None
+            for f in S:
+                if f[0] == 'cmp' and f[1] == 'eq' and contains(f[2], lambda y: is_call(y, 'cmp')) and isinstance(f[3], tuple) and f[3] and f[3][0] == 'agg' and f[3][2] in ('Less', 'Equal') and f[5] is True:
+                    args = [y for y in walk(f[2]) if is_call(y, 'cmp')]
+                    if args and side_of(args[0][2][0]) == {'client'} and side_of(args[0][2][1]) == {'server'}:
+                        less_eq = True
+            neg = [f for f in S if f[0] == 'cmp' and f[1] == 'eq' and f[5] is False and isinstance(f[3], tuple) and f[3] and f[3][0] == 'agg' and f[3][2] in ('Less', 'Equal')]
+            both_neg = {f[3][2] for f in neg} == {'Less', 'Equal'} and all(
+                (lambda args: bool(args) and side_of(args[0][2][0]) == {'client'} and side_of(args[0][2][1]) == {'server'})([y for y in walk(f[2]) if is_call(y, 'cmp')]) for f in neg)
+            if mine == 'client':
+                return less_eq is True and not both_neg
+            return both_neg and less_eq is not True
+        ok, w = all_paths(sts, ok_case)
+        rep.ob(rid, pk, 'merge:%s-returned-only-when-first' % mine, ok and bool(sts), '' if ok else 'witness: ' + show_facts(w))
+    rep.count_floor(rid, 'non-empty results of SimQueue::peek', n, 4)
+
+
 def check_C19(ctx, rep):
     prog, an = ctx.prog, ctx.an
     rep.rule('C19.R1', 'ambient effects reachable from sim_advanced are exactly the sanctioned ones: rand::thread_rng in SimState::new only on the '
@@ -1867,6 +1937,21 @@ def check_queue_tags(ctx, rep, rid):
                 h = heap_of(v)
                 if h:
                     vals.append(h)
+        # ... and conversely: a candidate taken from heap x is tagged Queue::X in the same step (a stale tag makes pop() take
+        # the head of another heap)
+        up = {v2: k2 for k2, v2 in low.items()}
+        # the running best candidate: the Option<&SimEvent> local that is assigned more than once
+        cnt = {}
+        for b3 in ka.cfg.reach:
+            for s3 in ka.blocks[b3]['s']:
+                if 'p' in s3 and not s3['p']['pr'] and s3['rv']['k'] != 'setdiscr' and ka.fn.local_ty(s3['p']['l']).startswith('core::option::Option<&') and 'SimEvent' in ka.fn.local_ty(s3['p']['l']):
+                    cnt[s3['p']['l']] = cnt.get(s3['p']['l'], 0) + 1
+        chosen = {l for l, c in cnt.items() if c >= 2}
+        for k, s2 in enumerate(ka.blocks[b]['s']):
+            if 'p' in s2 and not s2['p']['pr'] and s2['p']['l'] in chosen and s2['rv']['k'] != 'setdiscr':
+                hv = heap_of(ka.rvalue(s2['rv'], (b, k)))
+                if hv in up:
+                    rep.ob(rid, pk, 'candidate-is-tagged:%s' % hv, up[hv] in tags, 'the chosen candidate is taken from heap %s, tags set in the same block: %s' % (hv, tags))
         for tg in tags:
             if tg == 'Blocking' and not vals and any(is_const(ka.rvalue(s['rv'], (b, 0)), 0) for s in ka.blocks[b]['s'] if 'p' in s and s['rv']['k'] == 'use'):
                 continue
@@ -1994,7 +2079,40 @@ def check_no_normal_packets_table(ctx, rep, rid):
                                 if isinstance(y, tuple) and y and y[0] == 'agg' and y[1].endswith('event::TriggerEvent'):
                                     kinds.add(y[2])
         if len(heaps) == 1:
-            seen.setdefault(heaps.pop(), set()).update(kinds)
+            heap = heaps.pop()
+            seen.setdefault(heap, set()).update(kinds)
+            # an element lets the scan go on ("not a pending normal packet") only when its kind was found different from the kind a
+            # pending normal packet has in this heap
+            want = PENDING_KIND[heap]
+            pfi = an2.paths(fn, history=True, entry=h)
+            for (x, lab) in fa.cfg.pred[h]:
+                if x not in body:
+                    continue
+                for S in pfi.on_edge(x, h, lab):
+                    def is_ev(e):
+                        return contains(e, lambda y: isinstance(y, tuple) and y and y[0] == 'fld' and y[3] == 'event' and y[2].endswith('SimEvent'))
+
+                    def is_kind(e):
+                        return contains(e, lambda y: isinstance(y, tuple) and y and y[0] == 'agg' and y[1].endswith('event::TriggerEvent') and y[2] == want)
+                    ok = any(f[0] == 'cmp' and ((f[1] == 'ne' and f[5] is True) or (f[1] == 'eq' and f[5] is False)) and
+                             ((is_ev(f[2]) and is_kind(f[3])) or (is_ev(f[3]) and is_kind(f[2]))) for f in S) or \
+                        any(f[0] == 'notvariant' and is_ev(f[1]) and want in f[2] for f in S) or \
+                        any(f[0] == 'variant' and is_ev(f[1]) and f[2] != want for f in S)
+                    rep.ob(rid, fn, 'scan-continues-only-past-other-kinds:' + heap, ok,
+                           'an element of %s is passed over only when it is not a %s' % (heap, want) + ('' if ok else '; witness ' + show_facts(S)))
+    # "no normal packets" is answered with true only after the base queue was found empty and every scan ran to its end
+    pfw = an2.paths(fn, history=True)
+    n_true = 0
+    for (b, k, v) in ret_defs(fa):
+        if num(v) == 1:
+            n_true += 1
+            sts = pfw.at(b, k) if k is not None else pfw.at_entry(b)
+            for S in sts:
+                ended = len({f[1] for f in S if f[0] == 'variant' and f[2] == 'None' and (is_call(unload(f[1]), 'Iterator>::next') or is_call(unload(f[1]), 'Iterator::next'))})
+                base_empty = any(f[0] == 'bcall' and f[1].endswith('is_empty') and f[3] is True and contains(f[2], lambda y: isinstance(y, tuple) and y and y[0] == 'fld' and y[3] == 'base') for f in S)
+                ok = base_empty and ended >= len(PENDING_KIND)
+                rep.ob(rid, fn, 'true-only-after-every-heap-was-scanned', ok, 'base found empty: %s, scans run to their end: %d of %d' % (base_empty, ended, len(PENDING_KIND)))
+    rep.count_floor(rid, 'true results of no_normal_packets', n_true, 1)
     for heap, kind in PENDING_KIND.items():
         got = seen.get(heap)
         rep.ob(rid, fn, 'pending-kind:' + heap, got == {kind},
